@@ -825,8 +825,23 @@ def alias_world(ctx, res, tag_seed):
                     comp = compilers[backend]
                     comp.measurement_determinism = 1
                     comp.noise_simulation = True
-                    comp.compile(noisy)
-                    comp.noise_simulation = False
+                    # the compiled circuit itself is an input too ("compiling never changes the circuit passed in"): the noisy circuit is a
+                    # fresh object that no fingerprint of the world covers, so its noise assignment is compared around the compile here
+                    # (this is what the dropped `mc`-on-a-noisy-circuit calls used to reach by accident: seeded C13-m1)
+                    noise_before = tuple((n, noise_desc(noisy.dag.nodes[n]["op"].noise)) for n in sorted(noisy.dag.nodes, key=str) if not isinstance(n, str))
+                    try:
+                        comp.compile(noisy)
+                    finally:
+                        comp.noise_simulation = False
+                        noise_after = tuple((n, noise_desc(noisy.dag.nodes[n]["op"].noise)) for n in sorted(noisy.dag.nodes, key=str) if not isinstance(n, str))
+                        if noise_after != noise_before:
+                            res.violation("alias:compile_noisy:compiled-circuit-changed:noise",
+                                          "a library call never changes the behaviour of the circuit, target or noise-free original passed in",
+                                          input={"kind": kind, "circuit": wu.encode(wu.snapshot(circ)), "history": list(history), "call": call, "backend": backend,
+                                                 "seed": tag_seed},
+                                          impl=str([x for x, y in zip(noise_after, noise_before) if x != y])[:300],
+                                          model=str([y for x, y in zip(noise_after, noise_before) if x != y])[:300])
+                            return
                 elif call == "mc":
                     mcm = McNoiseMap()
                     mcm.add_gate_noise("e", "Hadamard", [(nm.PauliError("X"), 0.3), (nm.NoNoise(), 0.7)])
